@@ -39,9 +39,10 @@ func parseGoErr(s string) goErr {
 		return goErr{kind: s}
 	case strings.HasPrefix(s, "plain:"):
 		return goErr{kind: "plain", text: string(unhx(s[6:]))}
-	case strings.HasPrefix(s, "coded:"):
-		p := strings.SplitN(s[6:], "@", 2)
-		return goErr{kind: "coded", w: parseWireErr(p[0]), meta: parseHdr(p[1])}
+	case strings.HasPrefix(s, "coded:"), strings.HasPrefix(s, "codedctx:"), strings.HasPrefix(s, "codedwrap:"):
+		kind := s[:strings.IndexByte(s, ':')]
+		p := strings.SplitN(s[len(kind)+1:], "@", 2)
+		return goErr{kind: kind, w: parseWireErr(p[0]), meta: parseHdr(p[1])}
 	}
 	panic("bad result " + s)
 }
@@ -57,15 +58,33 @@ func (g goErr) build() error {
 	case "plain":
 		return errors.New(g.text)
 	}
-	e := connect.NewError(connect.Code(g.w.code), errors.New(g.w.msg))
+	var cause error = errors.New(g.w.msg)
+	if g.kind == "codedctx" {
+		// the handler's own coded error, whose cause happens to be a context error
+		cause = &textOver{text: g.w.msg, inner: context.DeadlineExceeded}
+	}
+	e := connect.NewError(connect.Code(g.w.code), cause)
 	for _, d := range g.w.details {
 		e.AddDetail(detailToAny(d))
 	}
 	for k, vs := range g.meta {
 		e.Meta()[k] = append([]string(nil), vs...)
 	}
+	if g.kind == "codedwrap" {
+		// … or the coded error wrapped once more on its way out of the handler
+		return &textOver{text: "while handling: " + g.w.msg, inner: e}
+	}
 	return e
 }
+
+// textOver is an error with a text of its own that wraps another error.
+type textOver struct {
+	text  string
+	inner error
+}
+
+func (t *textOver) Error() string { return t.text }
+func (t *textOver) Unwrap() error { return t.inner }
 
 func ctFor(proto, kind, codec string) string {
 	switch proto {
@@ -513,7 +532,7 @@ func clientRoundtrip(c *Ctx, op, proto, kind string, rec recorded, h, t hdr, sen
 		}
 		var want *wireErr
 		switch result.kind {
-		case "coded":
+		case "coded", "codedctx", "codedwrap":
 			want = result.w
 		case "plain":
 			want = &wireErr{code: 2, msg: result.text}
@@ -573,7 +592,9 @@ func cdecOp(c *Ctx, op string) {
 	var v clientView
 	max := atoi(a["max"])
 	ans := safely(func() string {
-		sc := &staticClient{status: r.status, header: header, trailer: trailer, body: body}
+		// the transport behaves like net/http: HTTP trailers are filled in when the end of the body
+		// is reported, not before
+		sc := &shapedClient{status: r.status, header: header, trailer: trailer, body: body, shape: transportShape{chunk: 0, eofWithData: false}}
 		v = callClient(proto, kind, sc, nil, [][]byte{{}}, connect.WithReadMaxBytes(max))
 		return showView(kind, v)
 	})
@@ -588,7 +609,7 @@ func cdecOp(c *Ctx, op string) {
 				return showView(kind, callClient(proto, kind, sc, nil, [][]byte{{}}, connect.WithReadMaxBytes(max)))
 			})
 			if alt != ans {
-				c.Fail("seg-transport-shape", op, fmt.Sprintf("reads of %d bytes, EOF with data=%v, trailers at EOF: %s  |  one piece, trailers up front: %s", shape.chunk, shape.eofWithData, alt, ans), "the client's view of one and the same response depends on how the transport delivers it")
+				c.Fail("seg-transport-shape", op, fmt.Sprintf("reads of %d bytes, EOF with data=%v: %s  |  one piece, EOF separately: %s", shape.chunk, shape.eofWithData, alt, ans), "the client's view of one and the same response depends on how the transport delivers it")
 				break
 			}
 		}
@@ -962,8 +983,8 @@ func showGoErr(g goErr) string {
 	switch g.kind {
 	case "plain":
 		return "plain:" + hx([]byte(g.text))
-	case "coded":
-		return "coded:" + showWireErr(g.w) + "@" + showHdr(g.meta)
+	case "coded", "codedctx", "codedwrap":
+		return g.kind + ":" + showWireErr(g.w) + "@" + showHdr(g.meta)
 	}
 	return g.kind
 }
@@ -992,7 +1013,7 @@ func streamProto(c *Ctx) {
 	protos := []string{"connect", "grpc", "grpcweb"}
 	kinds := []string{"unary", "client", "server", "bidi"}
 	hkeys := []string{"X-A", "X-Multi", "X-Data-Bin", "Trace-Id", "Total-Count", "Retry-After"}
-	tkeys := []string{"X-Trailer", "Trace-Id", "X-T-Bin", "Total-Count", "Transfer-Note", "Etag"}
+	tkeys := []string{"X-Trailer", "Trace-Id", "X-T-Bin", "Total-Count", "Transfer-Note", "Etag", "X-Trailer-Checksum", "Upstream-Trailer-Count"}
 	mkeys := []string{"X-Err", "X-Multi", "X-Err-Bin", "Trace-Id", "X-Trailer"}
 	reps := 4
 	if c.Thorough() {
@@ -1017,6 +1038,10 @@ func streamProto(c *Ctx) {
 			results = append(results, goErr{kind: "coded", w: &wireErr{code: 5, msg: strings.Repeat("long message ", 400)}, meta: hdr{}})
 			// a handler that proxies an upstream error unchanged: its metadata carries the status keys
 			results = append(results, goErr{kind: "coded", w: &wireErr{code: 5, msg: "proxied"}, meta: hdr{"Grpc-Status": {"5"}, "Grpc-Message": {"proxied"}, "X-Up": {"1"}}})
+			for _, k := range []string{"codedctx", "codedwrap"} {
+				results = append(results, goErr{kind: k, w: &wireErr{code: 14, msg: "backend did not answer", details: genDetails(r)}, meta: genHeader(r, mkeys)})
+				results = append(results, goErr{kind: k, w: &wireErr{code: 1 + r.Intn(16), msg: errorTexts[r.Intn(len(errorTexts))]}, meta: genHeader(r, mkeys)})
+			}
 			for i := 0; i < reps; i++ {
 				results = append(results, goErr{kind: "none"})
 			}
@@ -1093,6 +1118,16 @@ func mutatedResponses(c *Ctx) {
 					}
 					cdecOp(c, cdecLine(proto, kind, &sresp{status: 200, header: hh}))
 				}
+				// an explicit identity encoding (legal; connect-go handlers omit the header instead)
+				for _, encv := range []string{"identity", "rle", "gzip", "zz"} {
+					one := []bodyItem{{kind: "f", flags: 0, data: []byte{1, 2}}}
+					okTr := hdr{"Grpc-Status": {"0"}}
+					if proto == "grpc" {
+						cdecOp(c, cdecLine(proto, kind, &sresp{status: 200, header: hdr{"Content-Type": {ct}, "Grpc-Encoding": {encv}}, body: one, trailer: okTr}))
+					} else {
+						cdecOp(c, cdecLine(proto, kind, &sresp{status: 200, header: hdr{"Content-Type": {ct}, "Grpc-Encoding": {encv}}, body: append(append([]bodyItem{}, one...), bodyItem{kind: "web", header: okTr})}))
+					}
+				}
 				// Grpc-Message variants: truncated, invalid and non-UTF-8 percent escapes (the value is
 				// peer-controlled; decoding it must not panic and yields what the model's decoder yields)
 				for _, gm := range []string{"%", "%2", "a%20b%2", "a%20b%", "%zz", "%2G", "%C3%28", "%00", "x%FFy", "%E2%82%AC", "100%", "%%", "a%20", "plain text", " lead", "trail ", "\tTab", ""} {
@@ -1131,6 +1166,13 @@ func mutatedResponses(c *Ctx) {
 				for _, enc := range []string{"rle", "gzip", "identity", "br"} {
 					cdecOp(c, cdecLine(proto, kind, &sresp{status: 404, header: hdr{"Content-Type": {"application/json"}, "Content-Encoding": {enc}}, body: []bodyItem{{kind: "ejz", err: okErr}}}))
 				}
+				// an error longer than the client's read limit is still the peer's error (the limit is
+				// about messages; the error body is not one)
+				for _, lim := range []int{16, 64, 300} {
+					long := &wireErr{code: 8, msg: strings.Repeat("quota exceeded for tenant; ", 20), details: det}
+					cdecOp(c, cdecLineMax(proto, kind, lim, &sresp{status: 429, header: hdr{"Content-Type": {"application/json"}, "X-H": {"1"}}, body: []bodyItem{{kind: "ej", err: long}}}))
+					cdecOp(c, cdecLineMax(proto, kind, lim, &sresp{status: 429, header: hdr{"Content-Type": {"application/json"}, "Content-Encoding": {"gzip"}}, body: []bodyItem{{kind: "ejz", err: long}}}))
+				}
 				cdecOp(c, cdecLine(proto, kind, &sresp{status: 200, header: hdr{"Content-Type": {ct}, "Content-Encoding": {"br"}}, body: []bodyItem{{kind: "raw", data: []byte{1}}}}))
 				cdecOp(c, cdecLine(proto, kind, &sresp{status: 200, header: hdr{"Content-Type": {ct}, "Content-Encoding": {"rle"}}, body: []bodyItem{{kind: "raw", data: rleCompress([]byte{1, 1, 1})}}}))
 				cdecOp(c, cdecLine(proto, kind, &sresp{status: 200, header: hdr{"Content-Type": {ct}, "Content-Encoding": {"rle"}}, body: []bodyItem{{kind: "raw", data: []byte{9}}}}))
@@ -1145,6 +1187,7 @@ func mutatedResponses(c *Ctx) {
 				}
 				cdecOp(c, cdecLine(proto, kind, &sresp{status: 200, header: hdr{"Content-Type": {ct}}, body: []bodyItem{{kind: "f", data: []byte{1}}}}))
 				cdecOp(c, cdecLine(proto, kind, &sresp{status: 200, header: hdr{"Content-Type": {ct}}}))
+				cdecOp(c, cdecLine(proto, kind, &sresp{status: 200, header: hdr{"Content-Type": {ct}, "Connect-Content-Encoding": {"identity"}}, body: []bodyItem{{kind: "f", data: []byte{1, 2}}, {kind: "end", header: hdr{}}}}))
 				cdecOp(c, cdecLine(proto, kind, &sresp{status: 200, header: hdr{"Content-Type": {ct}, "Connect-Content-Encoding": {"br"}}, body: []bodyItem{{kind: "end", header: hdr{}}}}))
 				cdecOp(c, cdecLine(proto, kind, &sresp{status: 200, header: hdr{"Content-Type": {ct}}, body: []bodyItem{{kind: "f", flags: 1, data: []byte{3, 7}}, {kind: "end", header: hdr{}}}}))
 				cdecOp(c, cdecLine(proto, kind, &sresp{status: 200, header: hdr{"Content-Type": {ct}, "Connect-Content-Encoding": {"rle"}}, body: []bodyItem{{kind: "f", flags: 1, data: []byte{3, 7}}, {kind: "end", header: hdr{}}}}))
